@@ -235,14 +235,12 @@ Proof.
   destruct H10 as [A|[A|[A|A]]]; auto; destruct A as [A _]; congruence.
 Qed.
 
-Lemma do_enable_Inv s : Inv s -> late (fst (do_enable s)) = false -> Inv (fst (do_enable s)).
+Lemma do_enable_Inv s : Inv s -> Inv (fst (do_enable s)).
 Proof.
-  intros HI. unfold do_enable. cbn [fst]. ssimp. intros HL.
-  apply orb_false_iff in HL. destruct HL as [_ HR].
+  intros HI. unfold do_enable. destruct (isSome (resetErr s)) eqn:HR; [exact HI|]. cbn [fst].
+  assert (ER : resetErr s = None) by (destruct (resetErr s); [discriminate|reflexivity]).
   destruct HI as [H1 H2 H3 H4 H5 H6 H7 H0 H8 H9 H10].
   constructor; inv_unf; auto.
-  destruct (supportsRSA s) eqn:ES; [exact H10|].
-  assert (ER : resetErr s = None) by (destruct (resetErr s); [discriminate|reflexivity]).
   destruct H10 as [A|[A|[A|A]]]; auto; destruct A as [A _]; congruence.
 Qed.
 
@@ -730,7 +728,7 @@ Proof.
   - unfold do_win. destruct (_ >? _); exact H.
   - unfold do_cwin. destruct (_ >? _); exact H.
   - unfold do_rel. destruct (isSome (resetErr s)); exact H.
-  - unfold do_enable. ssimp. rewrite H. reflexivity.
+  - unfold do_enable. destruct (isSome _); exact H.
   - unfold do_shutdown. destruct (_ && _); exact H.
 Qed.
 
